@@ -1,1 +1,437 @@
-From Verif Require Import Lib.Base Model.C15_Sync Proofs.C15.
+(* C15 -- sync committee members message every slot of their period, independently.
+   Property theorems only; lemmas in Proofs/C15.v (window) and Proofs/C15_Fire.v (per-slot chain),
+   the model in Model/C15_Sync.v.
+
+   Reading guide.  [window_of guarded p epoch cur] / [window_slots ...] is the slot loop of
+   scheduleSyncCommitteeMessages on uint64 arithmetic ([guarded = true]: the code as it stands,
+   [false]: the decrement before the repair); [schedule p i] the whole call (requests, job table,
+   subscription); [fire p mem acct f] the chain prepare job -> message job -> aggregation job of
+   one slot for the members [mem] (validator, committee positions), the account predicate [acct]
+   and the scripted environment [f] (head root, signer / node / submitter behaviour);
+   [fire_scheduled p i f] the same for a slot of a call [i] (nothing unless its prepare job exists).
+   [chain_ok]: spe > 0, epp > 0 (divisors in the code), a period has at least two slots.
+   [in_range]: the clock and the first slot after the period fit uint64.
+   Exact specification arithmetic: [period_start] / [period_end] = first slot of the fork-clamped
+   period of [epoch] / first slot after it; [spec_first] = max(period_start - 1, now) with the
+   subtraction saturating at slot 0; [spec_last] = period_end - 2 (the slot before the last). *)
+From Verif Require Import Lib.Base Model.C15_Sync Check.C15 Proofs.C15 Proofs.C15_Fire Proofs.C15_Check Proofs.C15_Pass.
+
+(* ------------------------------------------------------------------------------------------- *)
+(* C15_window.  For every chain (slots per epoch, epochs per period, fork epoch), every epoch
+   argument -- period 0, the fork epoch, a period cut by the fork included -- every clock position
+   and both values of notCurrentSlot, the slots the loop visits on the WRAPPED arithmetic are
+   exactly the slots max(first-1, now) .. last-1 of the fork-clamped period, minus the current slot
+   when told so, each once; the duties and accounts are asked for max(first epoch, current epoch)
+   and the subscription runs until the first epoch of the next period. *)
+Theorem C15_window :
+  forall p epoch cur notcur,
+    chain_ok p -> in_range p epoch cur ->
+    (forall s, In s (window_slots true p epoch cur notcur) <->
+               spec_first p epoch cur <= s <= spec_last p epoch /\ (notcur = true -> s <> cur))
+    /\ NoDup (window_slots true p epoch cur notcur)
+    /\ w_first_epoch (window_of true p epoch cur) = N.max (period_first_epoch p epoch) (cur / spe p)
+    /\ w_until (window_of true p epoch cur) = period_next_epoch p epoch.
+Proof.
+  intros p epoch cur notcur Hok Hr. split; [|split; [|split]].
+  - intros s. exact (window_slots_spec p epoch cur notcur s Hok Hr).
+  - apply window_slots_NoDup.
+  - rewrite (window_exact p epoch cur Hok Hr). reflexivity.
+  - rewrite (window_exact p epoch cur Hok Hr). reflexivity.
+Qed.
+Print Assumptions C15_window.
+
+(* Consecutive periods tile the slot line: a call for the next period made before this period ends
+   starts its window exactly one slot after this period's window ends (the slot before a period's
+   last slot is this period's last duty, the last slot itself is the next period's first): no slot
+   without a message duty, none with two. *)
+Theorem C15_windows_tile :
+  forall p epoch cur,
+    chain_ok p -> cur < period_end p epoch ->
+    period_start p (epoch + epp p) = period_end p epoch
+    /\ spec_first p (epoch + epp p) cur = spec_last p epoch + 1.
+Proof. exact windows_tile. Qed.
+Print Assumptions C15_windows_tile.
+
+(* No uint64 subtraction of the repaired window wraps and no product or sum overflows:
+   lastEpoch = next - 1 has next >= 1, lastSlot = FirstSlotOfEpoch(lastEpoch + 1) - 2 has a first
+   operand >= 2 (and it is the exact first slot after the period), the guarded firstSlot-- is
+   applied to a positive slot only. *)
+Theorem C15_window_no_wrap :
+  forall p epoch cur,
+    chain_ok p -> in_range p epoch cur ->
+    let q := epoch / epp p in
+    let ne := first_epoch_of_period p (add64 q 1) in
+    let fe := w_first_epoch (window_of true p epoch cur) in
+    1 <= ne /\ 2 <= first_slot_of_epoch p (add64 (sub64 ne 1) 1)
+    /\ ne = period_next_epoch p epoch
+    /\ first_slot_of_epoch p (add64 (sub64 ne 1) 1) = period_end p epoch
+    /\ first_slot_of_epoch p fe = fe * spe p
+    /\ (0 < first_slot_of_epoch p fe -> 1 <= first_slot_of_epoch p fe).
+Proof. exact window_no_wrap. Qed.
+Print Assumptions C15_window_no_wrap.
+
+(* The unguarded decrement (the tree before "fix: do not underflow the first sync committee message
+   slot at epoch 0") computes the same window except when the first slot is slot 0 ... *)
+Theorem C15_window_unguarded_same_unless_slot0 :
+  forall p epoch cur,
+    0 < first_slot_of_epoch p (w_first_epoch (window_of true p epoch cur)) ->
+    first_slot_of_epoch p (w_first_epoch (window_of true p epoch cur)) < two64 ->
+    window_of false p epoch cur = window_of true p epoch cur.
+Proof. exact unguarded_same_unless_slot0. Qed.
+Print Assumptions C15_window_unguarded_same_unless_slot0.
+
+(* ... where it wraps to 2^64-1 for EVERY chain whose Altair fork is at genesis: started in epoch 0,
+   it schedules nothing for the whole first period, while every later slot up to the one before
+   the period's last is due (and scheduled by the repaired code). *)
+Theorem C15_window_unguarded_refuted :
+  forall p epoch cur notcur,
+    chain_ok p -> in_range p epoch cur ->
+    fork p = 0 -> epoch < epp p -> cur < spe p ->
+    w_first (window_of false p epoch cur) = two64 - 1
+    /\ window_slots false p epoch cur notcur = []
+    /\ (forall s, cur < s <= spe p * epp p - 2 -> In s (window_slots true p epoch cur notcur)).
+Proof. exact unguarded_wraps_at_epoch0. Qed.
+Print Assumptions C15_window_unguarded_refuted.
+
+(* The job table after scheduleSyncCommitteeMessages: exactly one prepare job per slot of the
+   window, 1.5 slots before the slot's start -- provided the call gets that far ([ready]: some
+   validator index, current epoch at or after the fork, a non-empty duties answer, accounts
+   obtained); otherwise no job. *)
+Theorem C15_schedule_jobs :
+  forall p i k s t,
+    chain_ok p -> in_range p (si_epoch i) (si_cur i) ->
+    (In (k, s, t) (so_jobs (schedule p i)) <->
+     ready p i /\ k = JPrepare /\ t = prepare_time p s
+     /\ spec_first p (si_epoch i) (si_cur i) <= s <= spec_last p (si_epoch i)
+     /\ (si_notcur i = true -> s <> si_cur i)).
+Proof. exact schedule_jobs_spec. Qed.
+Print Assumptions C15_schedule_jobs.
+
+(* Before the Altair fork -- whatever the parameters, including a fork epoch of FAR_FUTURE_EPOCH
+   = 2^64-1, which is outside [in_range] -- the call does nothing: no duties request, no job, no
+   subscription. *)
+Theorem C15_before_fork_nothing :
+  forall p i, epoch_of_slot p (si_cur i) < fork p ->
+    schedule p i = {| so_query := None; so_jobs := []; so_sub := None |}.
+Proof. exact before_fork_nothing. Qed.
+Print Assumptions C15_before_fork_nothing.
+
+(* ------------------------------------------------------------------------------------------- *)
+(* C15_message_every_slot.  For every call that reaches the loop and every slot of the window
+   whose jobs run: unless a step fails for the whole batch (head root unavailable, selection
+   signer or root signer error), the payload handed to SubmitSyncCommitteeMessages contains, for
+   each validator that has a duty, an account and a non-zero signature, exactly one message, with
+   that slot, the head root served in that slot, the validator's index and its account's signature
+   over that root for the slot's epoch -- and nothing else; the message job is at
+   StartOfSlot + delay. *)
+Theorem C15_message_every_slot :
+  forall p i f r,
+    chain_ok p -> in_range p (si_epoch i) (si_cur i) -> ready p i -> in_window p i (f_slot f) ->
+    f_root f = Some r -> f_sel_err f = false -> f_root_err f = false ->
+    let out := fire_scheduled p i f in
+    (forall s' r' v x,
+       In (s', r', v, x) (opt_list (o_submitted out)) <->
+       s' = f_slot f /\ r' = r /\ has_duty i v /\ holds_account i v /\ ~ In v (f_root_zero f)
+       /\ x = SgRoot v (f_slot f / spe p) r)
+    /\ NoDup (map msg_validator (opt_list (o_submitted out)))
+    /\ o_msg_job out = Some (message_time p (f_slot f)).
+Proof. exact message_every_slot. Qed.
+Print Assumptions C15_message_every_slot.
+
+(* Whatever fails, a message handed to the submitter is sound: for the fired slot, which has its
+   prepare job, over the head root served in that slot, by a validator with a duty and an account,
+   signed by that account for the slot's epoch. *)
+Theorem C15_message_sound :
+  forall p i f s' r' v x,
+    In (s', r', v, x) (opt_list (o_submitted (fire_scheduled p i f))) ->
+    s' = f_slot f /\ f_root f = Some r' /\ has_duty i v /\ holds_account i v
+    /\ x = SgRoot v (f_slot f / spe p) r'
+    /\ In (JPrepare, f_slot f, prepare_time p (f_slot f)) (so_jobs (schedule p i)).
+Proof. exact message_sound. Qed.
+Print Assumptions C15_message_sound.
+
+(* Outside the window nothing happens at all. *)
+Theorem C15_nothing_outside_window :
+  forall p i f,
+    chain_ok p -> in_range p (si_epoch i) (si_cur i) -> ~ (ready p i /\ in_window p i (f_slot f)) ->
+    fire_scheduled p i f = no_fire.
+Proof. exact fire_scheduled_out. Qed.
+Print Assumptions C15_nothing_outside_window.
+
+(* ------------------------------------------------------------------------------------------- *)
+(* C15_independence.  Run B differs from run A only in what concerns a set [bad] of members (any
+   subset): in B they may have no account ([fewer_accounts]), their message signatures and selection
+   proofs may be zero or different ([same_for_others]); every other member and the whole-batch
+   behaviour of the environment are the same.  Then, for every environment (failing or not):
+   every message of a member outside [bad] submitted in A is submitted in B ... *)
+Theorem C15_independence :
+  forall p mem bad acct acct' f f' m,
+    fewer_accounts bad acct acct' -> same_for_others bad f f' -> bad (msg_validator m) = false ->
+    In m (opt_list (o_submitted (fire p mem acct f))) ->
+    In m (opt_list (o_submitted (fire p mem acct' f'))).
+Proof. exact independence_messages. Qed.
+Print Assumptions C15_independence.
+
+(* ... and conversely unless the selection signer fails as a whole (a batch that fails in A may be
+   empty, hence not attempted, in B): the other members' messages are the same in both runs. *)
+Theorem C15_independence_converse :
+  forall p mem bad acct acct' f f' m,
+    fewer_accounts bad acct acct' -> same_for_others bad f f' -> bad (msg_validator m) = false ->
+    f_sel_err f = false ->
+    In m (opt_list (o_submitted (fire p mem acct' f'))) ->
+    In m (opt_list (o_submitted (fire p mem acct f))).
+Proof. exact independence_messages_back. Qed.
+Print Assumptions C15_independence_converse.
+
+(* As an equation: when the selection signer does not fail as a whole, the sub-list of the other
+   members' messages (same messages, same order, same multiplicity) is identical in both runs. *)
+Theorem C15_independence_exact :
+  forall p mem bad acct acct' f f',
+    fewer_accounts bad acct acct' -> same_for_others bad f f' -> f_sel_err f = false ->
+    filter (others bad) (opt_list (o_submitted (fire p mem acct f)))
+    = filter (others bad) (opt_list (o_submitted (fire p mem acct' f'))).
+Proof. exact independence_exact. Qed.
+Print Assumptions C15_independence_exact.
+
+(* The same on the inputs of scheduleSyncCommitteeMessages: the account manager holding fewer
+   accounts (any subset [bad] of the validators removed) changes neither the job table nor the
+   messages of the other validators, in any slot and any environment. *)
+Theorem C15_independence_accounts :
+  forall p i a a' (bad : N -> bool) f m,
+    si_accts i = Some a ->
+    (forall v, (bad v = false -> (In v a' <-> In v a)) /\ (In v a' -> In v a)) ->
+    bad (msg_validator m) = false ->
+    In m (opt_list (o_submitted (fire_scheduled p i f))) ->
+    so_jobs (schedule p (with_accts i a')) = so_jobs (schedule p i)
+    /\ In m (opt_list (o_submitted (fire_scheduled p (with_accts i a') f))).
+Proof.
+  intros p i a a' bad f m Ha Hs Hb Hin. split.
+  - exact (schedule_jobs_with_accts p i a a' Ha).
+  - exact (independence_accounts p i a a' bad f m Ha Hs Hb Hin).
+Qed.
+Print Assumptions C15_independence_accounts.
+
+(* Contributions.  Full statement: "every contribution of an aggregator outside [bad] submitted in
+   A is submitted in B".  Proved under two provisos that the code makes necessary: some message
+   outside [bad] goes out (Message reports an error when it has nothing to submit and the
+   aggregation job is then not scheduled), and the node serves the contributions B asks for (one
+   failed contribution request ends Aggregate). *)
+Theorem C15_independence_contributions_partial :
+  forall p mem bad acct acct' f f' c,
+    fewer_accounts bad acct acct' -> same_for_others bad f f' -> bad (cp_agg c) = false ->
+    (exists m, In m (opt_list (o_submitted (fire p mem acct f))) /\ bad (msg_validator m) = false) ->
+    (forall x, In x (aggregators p mem acct' f') -> ~ In (snd x) (f_contrib_err f')) ->
+    In c (opt_list (o_contribs (fire p mem acct f))) ->
+    In c (opt_list (o_contribs (fire p mem acct' f'))).
+Proof. exact independence_contributions. Qed.
+Print Assumptions C15_independence_contributions_partial.
+
+(* Aggregate on its own: removing the accounts of any set of aggregators leaves every other
+   aggregator's contributions. *)
+Theorem C15_independence_aggregate :
+  forall (bad : N -> bool) a a' c,
+    a_slot a' = a_slot a -> a_aggs a' = a_aggs a -> a_cached a' = a_cached a -> a_head a' = a_head a ->
+    a_contrib_err a' = a_contrib_err a -> a_cp_err a' = a_cp_err a ->
+    (forall v, (bad v = false -> (In v (a_accts a') <-> In v (a_accts a)))
+               /\ (In v (a_accts a') -> In v (a_accts a))) ->
+    bad (cp_agg c) = false ->
+    In c (opt_list (aggregate a)) -> In c (opt_list (aggregate a')).
+Proof. exact independence_aggregate. Qed.
+Print Assumptions C15_independence_aggregate.
+
+(* ------------------------------------------------------------------------------------------- *)
+(* C15_subcommittee_and_selection_spec.  The selection proofs are requested for exactly the
+   (member with account, position / (size / subnets)) pairs; a member aggregates a subcommittee
+   iff it is one of those pairs and LE64(sha256(selection proof)[0:8]) mod max(1, size / subnets /
+   target) = 0 (the hash is the environment's: [f_hash8]); the guards are those of the code
+   (both divisors positive). *)
+Theorem C15_subcommittee_and_selection_spec :
+  forall p mem acct f v c,
+    0 < csize p / subnets p -> 0 < target p ->
+    (In (v, c) (opt_list (o_sel_call (fire p mem acct f))) <->
+     exists ps pos, In (v, ps) mem /\ acct v = true /\ In pos ps /\ c = spec_subcommittee p pos)
+    /\ (In (v, c) (aggregators p mem acct f) <->
+        (exists ps pos, In (v, ps) mem /\ acct v = true /\ In pos ps /\ c = spec_subcommittee p pos)
+        /\ exists h, lookup3 (f_hash8 f) v c = Some h /\ spec_is_aggregator p h).
+Proof.
+  intros p mem acct f v c _ _. split; [|apply selection_spec].
+  rewrite fire_sel_call_In, sel_pairs_In. split.
+  - intros ([v' ps] & pos & Hm & Ha & Hp & Heq). cbn in *. injection Heq as -> ->. eauto 8.
+  - intros (ps & pos & Hm & Ha & Hp & ->). exists (v, ps), pos. cbn. auto.
+Qed.
+Print Assumptions C15_subcommittee_and_selection_spec.
+
+(* valid committee positions land in a valid subnet *)
+Theorem C15_subcommittee_in_range :
+  forall p pos, 0 < subnets p -> csize p mod subnets p = 0 -> pos < csize p ->
+                spec_subcommittee p pos < subnets p.
+Proof. exact subcommittee_lt_subnets. Qed.
+Print Assumptions C15_subcommittee_in_range.
+
+(* Every contribution handed to the submitter, whatever fails, is by a selected aggregator, for
+   the fired slot and that slot's head root, with the selection proof the signer gave; the
+   aggregation job was at StartOfSlot + aggregation delay. *)
+Theorem C15_contribution_sound :
+  forall p mem acct f c,
+    In c (opt_list (o_contribs (fire p mem acct f))) ->
+    In (cp_agg c, cp_subc c) (aggregators p mem acct f)
+    /\ cp_slot c = f_slot f /\ f_root f = Some (cp_root c)
+    /\ cp_proof c = sel_sig f (cp_agg c, cp_subc c) /\ cp_sig c = SgCP (cp_agg c) (f_slot f) (cp_subc c)
+    /\ o_agg_job (fire p mem acct f) = Some (aggregate_time p (f_slot f)).
+Proof. exact contribution_sound. Qed.
+Print Assumptions C15_contribution_sound.
+
+(* When the messages went out and neither the node nor the contribution signer fails, every
+   selected (member, subcommittee) has its contribution. *)
+Theorem C15_contribution_complete :
+  forall p mem acct f r v sc,
+    f_root f = Some r -> message_ok p mem acct f r = true ->
+    (forall x, In x (aggregators p mem acct f) -> ~ In (snd x) (f_contrib_err f)) -> f_cp_err f = false ->
+    In (v, sc) (aggregators p mem acct f) ->
+    In {| cp_agg := v; cp_slot := f_slot f; cp_subc := sc; cp_root := r;
+          cp_proof := sel_sig f (v, sc); cp_sig := SgCP v (f_slot f) sc |}
+       (opt_list (o_contribs (fire p mem acct f)))
+    /\ o_agg_job (fire p mem acct f) = Some (aggregate_time p (f_slot f)).
+Proof. exact contribution_complete. Qed.
+Print Assumptions C15_contribution_complete.
+
+(* ------------------------------------------------------------------------------------------- *)
+(* The boolean predicate the check evaluates on the OBSERVED outputs of the implementation
+   (Check.C15.P_b) is sound for the statements above: a case that passes it has the job table of
+   C15_schedule_jobs and, for every fired slot, a payload that is sound and complete in the sense
+   of C15_message_every_slot (nothing outside the window). *)
+Theorem C15_check_predicate_sound :
+  forall c,
+    P_b c = true -> chain_ok (c_par c) -> (0 <= slot_ns (c_par c))%Z ->
+    let p := c_par c in let i := c_in c in
+    (forall k s t, In (k, s, t) (so_jobs (c_out c)) <->
+       ready p i /\ k = JPrepare /\ t = prepare_time p s
+       /\ spec_first p (si_epoch i) (si_cur i) <= s <= spec_last p (si_epoch i)
+       /\ (si_notcur i = true -> s <> si_cur i))
+    /\ NoDup (so_jobs (c_out c))
+    /\ length (c_fouts c) = length (c_fires c)
+    /\ forall k f o, nth_error (c_fires c) k = Some f -> nth_error (c_fouts c) k = Some o -> ready p i ->
+         (~ in_window p i (f_slot f) -> opt_list (o_submitted o) = [])
+         /\ (in_window p i (f_slot f) -> forall r, f_root f = Some r ->
+             (forall s' r' v x, In (s', r', v, x) (opt_list (o_submitted o)) ->
+                s' = f_slot f /\ r' = r /\ has_duty i v /\ holds_account i v /\ x = SgRoot v (f_slot f / spe p) r)
+             /\ NoDup (map msg_validator (opt_list (o_submitted o)))
+             /\ (f_sel_err f = false -> f_root_err f = false ->
+                 forall v, has_duty i v -> holds_account i v -> ~ In v (f_root_zero f) ->
+                   In (f_slot f, r, v, SgRoot v (f_slot f / spe p) r) (opt_list (o_submitted o)))
+             /\ (f_sel_err f = false -> o_msg_job o = Some (message_time p (f_slot f)))).
+Proof. exact P_b_sound. Qed.
+Print Assumptions C15_check_predicate_sound.
+
+(* ... the observed selection-signer call, root-signer call (slot's epoch, slot's head root, no nil
+   hole, only members with an account), aggregation job and contributions are those of
+   C15_subcommittee_and_selection_spec / C15_contribution_sound / C15_contribution_complete ... *)
+Theorem C15_check_predicate_sound_contributions :
+  forall c,
+    P_b c = true -> chain_ok (c_par c) ->
+    let p := c_par c in let i := c_in c in
+    forall k f o r, nth_error (c_fires c) k = Some f -> nth_error (c_fouts c) k = Some o ->
+      ready p i -> in_window p i (f_slot f) -> f_root f = Some r ->
+      let aggs := aggregators p (members i) (has_account i) f in
+      (forall x, In x (opt_list (o_sel_call o)) <-> In x (sel_pairs p (members i) (has_account i)))
+      /\ (forall c, In c (opt_list (o_contribs o)) ->
+           In (cp_agg c, cp_subc c) aggs /\ c = mk_contrib f r (cp_agg c, cp_subc c))
+      /\ NoDup (map (fun c => (cp_agg c, cp_subc c)) (opt_list (o_contribs o)))
+      /\ (f_sel_err f = false -> f_root_err f = false -> f_submit_err f = false ->
+          (exists v, has_duty i v /\ holds_account i v /\ ~ In v (f_root_zero f)) ->
+          (aggs = [] -> o_agg_job o = None)
+          /\ (aggs <> [] -> o_agg_job o = Some (aggregate_time p (f_slot f))
+              /\ (f_cp_err f = false -> (forall x, In x aggs -> ~ In (snd x) (f_contrib_err f)) ->
+                  forall x, In x aggs -> In (mk_contrib f r x) (opt_list (o_contribs o)))))
+      /\ (forall accts e rr, o_root_call o = Some (accts, e, rr) ->
+            e = f_slot f / spe p /\ rr = r
+            /\ forall a, In a accts -> exists v, a = Some v /\ has_duty i v /\ holds_account i v).
+Proof. exact P_b_sound_contributions. Qed.
+Print Assumptions C15_check_predicate_sound_contributions.
+
+(* ... and a direct Aggregate call submitted exactly the contributions of the aggregators that
+   have an account, each once, all of them unless the node or the contribution signer fails. *)
+Theorem C15_check_predicate_sound_aggregate :
+  forall c a o,
+    P_b c = true -> c_agg c = Some (a, o) ->
+    (forall c, In c (opt_list o) ->
+       exists r, agg_root a = Some r /\ In (cp_agg c, cp_subc c) (agg_items a)
+                 /\ c = agg_contrib a r (cp_agg c, cp_subc c))
+    /\ NoDup (map (fun c => (cp_agg c, cp_subc c)) (opt_list o))
+    /\ (forall r, agg_root a = Some r -> a_cp_err a = false ->
+        (forall x, In x (agg_items a) -> ~ In (snd x) (a_contrib_err a)) ->
+        forall x, In x (agg_items a) -> In (agg_contrib a r x) (opt_list o)).
+Proof. exact P_b_sound_aggregate. Qed.
+Print Assumptions C15_check_predicate_sound_aggregate.
+
+(* Conversely the predicate is never stronger than what the model does: on every input in range, a
+   case on which the implementation agrees with the model (Check.C15.agree) passes P_b.  So on a
+   tree that still is the model the predicate cannot raise an alarm, and a tree that fails P_b on
+   some input necessarily disagrees with the model there.  (A direct Aggregate call must list each
+   (aggregator, subcommittee) once: SelectionProofs is a map per validator.) *)
+Theorem C15_agreement_implies_check :
+  forall c,
+    chain_ok (c_par c) -> in_range (c_par c) (si_epoch (c_in c)) (si_cur (c_in c)) ->
+    (0 <= slot_ns (c_par c))%Z ->
+    (forall a o, c_agg c = Some (a, o) -> NoDup (agg_items a)) ->
+    agree c = true -> P_b c = true.
+Proof. exact model_passes_check. Qed.
+Print Assumptions C15_agreement_implies_check.
+
+(* ------------------------------------------------------------------------------------------- *)
+(* Non-vacuity. *)
+
+Definition ex_p : params :=
+  {| spe := 4; epp := 2; fork := 0; slot_ns := 12000000000; msg_delay := 4000000000;
+     agg_delay := 8000000000; csize := 32; subnets := 4; target := 2 |}.
+
+(* the first period from epoch 0: slots 1..6 (0 is "now" and excluded), nothing before the repair *)
+Example C15_window_example :
+  chain_ok ex_p /\ in_range ex_p 0 0
+  /\ window_slots true ex_p 0 0 true = [1; 2; 3; 4; 5; 6]
+  /\ window_slots false ex_p 0 0 true = []
+  /\ window_slots true ex_p 2 3 false = [7; 8; 9; 10; 11; 12; 13; 14].
+Proof. unfold chain_ok, in_range. repeat split; try (vm_compute; reflexivity); try (vm_compute; discriminate). Qed.
+
+(* why a period of one slot is excluded: lastSlot wraps and the loop would not end *)
+Example C15_one_slot_period_wraps :
+  let p := {| spe := 1; epp := 1; fork := 0; slot_ns := 1; msg_delay := 0; agg_delay := 0; csize := 1; subnets := 1; target := 1 |} in
+  w_last (window_of true p 0 0) = two64 - 1.
+Proof. vm_compute. reflexivity. Qed.
+
+Definition ex_i : sched_in :=
+  {| si_epoch := 0; si_cur := 0; si_notcur := true; si_indices := [5; 6; 7];
+     si_duties := Some [(5, [9]); (6, [17; 3]); (7, [30])]; si_accts := Some [5; 7] |}.
+Definition ex_f : fire_in :=
+  {| f_slot := 6; f_root := Some 12; f_sel_err := false; f_sel_zero := [];
+     f_hash8 := [(5, 1, 0); (7, 3, 5)]; f_root_err := false; f_root_zero := [];
+     f_submit_err := false; f_contrib_err := []; f_cp_err := false |}.
+
+(* three members, 6 without account: 5 and 7 message in the last slot of the window; 5 aggregates *)
+Example C15_message_example :
+  ready ex_p ex_i /\ in_window ex_p ex_i 6
+  /\ o_submitted (fire_scheduled ex_p ex_i ex_f) = Some [(6, 12, 5, SgRoot 5 1 12); (6, 12, 7, SgRoot 7 1 12)]
+  /\ option_map (map (fun c => (cp_agg c, cp_subc c))) (o_contribs (fire_scheduled ex_p ex_i ex_f)) = Some [(5, 1)].
+Proof.
+  split; [|split; [|split]].
+  - unfold ready. split; [discriminate|]. split; [vm_compute; discriminate|]. split; [cbn; eauto | discriminate].
+  - unfold in_window. vm_compute. split; [split; discriminate | discriminate].
+  - vm_compute. reflexivity.
+  - vm_compute. reflexivity.
+Qed.
+
+(* independence instance: member 5 also loses its account and 7's signature ... stays: 7 still messages *)
+Example C15_independence_example :
+  let bad := fun v => v =? 5 in
+  let acct := has_account ex_i in
+  let acct' := fun v => acct v && negb (bad v) in
+  fewer_accounts bad acct acct' /\ same_for_others bad ex_f ex_f
+  /\ In (6, 12, 7, SgRoot 7 1 12) (opt_list (o_submitted (fire ex_p (members ex_i) acct' ex_f))).
+Proof.
+  split; [|split].
+  - intros v. cbv beta zeta. destruct (v =? 5).
+    + rewrite andb_false_r. split; discriminate.
+    + rewrite andb_true_r. split; auto.
+  - unfold same_for_others. repeat split; reflexivity.
+  - vm_compute. auto.
+Qed.
